@@ -33,8 +33,8 @@ Fit(o, good, k) ==
     /\ Op([op |-> "fit", o |-> o, good |-> good, armed |-> k])
 Key(o, kk, k) == st[o] \in {"E", "P"} /\ UNCHANGED st /\ Op([op |-> "writekey", o |-> o, key |-> kk, armed |-> k])
 RemKey(o, kk) == st[o] \in {"E", "P"} /\ UNCHANGED st /\ Op([op |-> "removekey", o |-> o, key |-> kk])
-Convolve(o, k) == st[o] = "P" /\ UNCHANGED st /\ Op([op |-> "convolve", o |-> o, armed |-> k])
-Permute(o, good) == st[o] = "P" /\ UNCHANGED st /\ Op([op |-> "permute", o |-> o, good |-> good])
+Convolve(o, k) == st[o] \in {"E", "P"} /\ UNCHANGED st /\ Op([op |-> "convolve", o |-> o, armed |-> k])
+Permute(o, good) == st[o] \in {"E", "P"} /\ UNCHANGED st /\ Op([op |-> "permute", o |-> o, good |-> good])
 Write(o, mem, k) == st[o] \in {"E", "P"} /\ UNCHANGED st /\ Op([op |-> IF mem THEN "writemem" ELSE "write", o |-> o, armed |-> k])
 Compare(o, o2) == st[o] \in {"E", "P"} /\ st[o2] \in {"E", "P"} /\ UNCHANGED st /\ Op([op |-> "compare", o |-> o, o2 |-> o2])
 MoveConstruct(o, src) ==
@@ -45,6 +45,12 @@ MoveAssign(o, src) ==
     /\ st[o] \in {"E", "P"} /\ st[src] \in {"E", "P"} /\ o # src
     /\ st' = [st EXCEPT ![o] = st[src], ![src] = st[o]]          \* implemented as a swap
     /\ Op([op |-> "moveassign", o |-> o, src |-> src])
+(* the stacking constructor: object o is built from the tables s1, s2 (and s1 again when three = TRUE); the sources  *)
+(* must be populated and of one shape, which the coarse state cannot tell: the outcome is "E?" unless known good  *)
+Stack(o, s1, s2, three, so, k) ==
+    /\ st[o] = "none" /\ st[s1] \in {"E", "P"} /\ st[s2] \in {"E", "P"} /\ o # s1 /\ o # s2
+    /\ st' = [st EXCEPT ![o] = "E?"]
+    /\ Op([op |-> "stack", o |-> o, s1 |-> s1, s2 |-> s2, three |-> three, so |-> so, armed |-> k])
 Destroy(o) == st[o] \in {"E", "P"} /\ st' = [st EXCEPT ![o] = "none"] /\ Op([op |-> "destroy", o |-> o])
 Forget(o) == st[o] = "E?" /\ st' = [st EXCEPT ![o] = "none"] /\ UNCHANGED hist
 
@@ -59,6 +65,7 @@ Next ==
           \/ \E k \in Fail : Convolve(o, k) \/ Write(o, TRUE, k) \/ Write(o, FALSE, k)
           \/ \E g \in BOOLEAN : Permute(o, g)
           \/ \E o2 \in Objs : Compare(o, o2) \/ MoveConstruct(o, o2) \/ MoveAssign(o, o2)
+          \/ \E s1 \in Objs, s2 \in Objs, three \in BOOLEAN, so \in 0 .. 3, k \in Fail : Stack(o, s1, s2, three, so, k)
 Spec == Init /\ [][Next]_vars
 
 (* design-level invariants on the coarse state *)
